@@ -1,7 +1,34 @@
-(** C01 -- decoding is total.  (placeholder while the refinement proofs are built) *)
-From RL Require Import Model.Decode.
+(** C01 -- Decoding is total: any octets, any options give Ok or a non-empty Err;
+    never a panic, an arithmetic overflow, undefined behaviour or non-termination.
+    [Val] excludes [Panic] (slice index, assert, and checked subtraction, which
+    stands for both the debug-build overflow panic and the release-build wrap),
+    [UB] (unchecked read outside the input) and [OutOfFuel] (the greedy loop not
+    terminating within its fuel, S |input| iterations). *)
+From RL Require Import Model.Decode Spec.SpecDecode Proofs.Totality.
 
-Theorem C01_model_runs_example :
-  exists r rest, m_decode strict_opts [19;32;0;12;0;1;0;2;0;3;0;4] = Val (r, rest).
-Proof. eexists; eexists; vm_compute; reflexivity. Qed.
-Print Assumptions C01_model_runs_example.
+Theorem C01_message_total : forall o b, bytes_ok b = true ->
+  exists r rest, m_decode o b = Val (r, rest) /\
+                 (is_Ok r = true \/ exists e es, r = Err (e :: es)).
+Proof. exact message_total. Qed.
+
+Theorem C01_avps_total : forall b, bytes_ok b = true ->
+  exists l rest, m_avps b = Val (l, rest).
+Proof. exact avps_total. Qed.
+
+Theorem C01_type_total : forall t p, exists r rest, m_decode_avp t p = Val (r, rest).
+Proof. exact type_total. Qed.
+
+(** iteration bound of the greedy loop: at most one record per 6 octets, plus one *)
+Theorem C01_loop_bound : forall n r, N.of_nat (length (fst (s_avps_n n r))) <= len r / 6 + 1.
+Proof. exact s_avps_n_count. Qed.
+
+(** non-vacuity: the D1 input of the pinned tree (Length = 4) is in the domain and is rejected *)
+Example C01_D1_input :
+  bytes_ok [19;32;0;4;0;0;0;0;0;0;0;0] = true /\
+  m_decode default_opts [19;32;0;4;0;0;0;0;0;0;0;0] = Val (Err [IncompleteControlMessageHeader], []).
+Proof. split; vm_compute; reflexivity. Qed.
+
+Print Assumptions C01_message_total.
+Print Assumptions C01_avps_total.
+Print Assumptions C01_type_total.
+Print Assumptions C01_loop_bound.
